@@ -91,7 +91,7 @@ def build(spec, seed=0):
         if k == 'gapw':
             return nn.AdaptiveAvgPool2d((None, 1))
         if k == 'flatten' and nd.get('form') == 'module':
-            return nn.Flatten(nd.get('start', 1))
+            return nn.Flatten(nd.get('sstart', nd.get('start', 1)))
         if m is not None and nd.get('pit') is not None:
             from plinio.methods.pit.nn import PITConv1d, PITConv2d, PITLinear
             from plinio.methods.pit.nn.features_masker import PITFeaturesMasker, PITFrozenFeaturesMasker
@@ -129,18 +129,29 @@ def build(spec, seed=0):
                 elif k == 'sub':
                     v.append(v[nd['src'][0]] - v[nd['src'][1]])
                 elif k == 'cat':
-                    v.append(torch.cat([v[j] for j in nd['src']], dim=nd['dim']))
+                    ts = [v[j] for j in nd['src']]
+                    d = nd.get('sdim', nd['dim'])
+                    v.append(torch.cat(ts, dim=d) if nd.get('kw', True) else torch.cat(ts, d))
                 elif k == 'relu_f':
                     v.append(torch.relu(v[nd['src']]))
                 elif k == 'flatten' and nd.get('form') != 'module':
+                    st = nd.get('sstart', nd.get('start', 1))
                     if nd.get('form') == 'method':
-                        v.append(v[nd['src']].flatten(nd.get('start', 1)))
+                        v.append(v[nd['src']].flatten(start_dim=st) if nd.get('kw') else v[nd['src']].flatten(st))
                     else:
-                        v.append(torch.flatten(v[nd['src']], nd.get('start', 1)))
+                        v.append(torch.flatten(v[nd['src']], start_dim=st) if nd.get('kw') else torch.flatten(v[nd['src']], st))
                 elif k == 'squeeze':
-                    v.append(v[nd['src']].squeeze(nd['dim']) if nd.get('form') == 'method' else torch.squeeze(v[nd['src']], nd['dim']))
+                    x, d = v[nd['src']], nd['dim']
+                    if nd.get('kw'):
+                        v.append(x.squeeze(dim=d) if nd.get('form') == 'method' else torch.squeeze(x, dim=d))
+                    else:
+                        v.append(x.squeeze(d) if nd.get('form') == 'method' else torch.squeeze(x, d))
                 elif k == 'unsqueeze':
-                    v.append(v[nd['src']].unsqueeze(nd['dim']) if nd.get('form') == 'method' else torch.unsqueeze(v[nd['src']], nd['dim']))
+                    x, d = v[nd['src']], nd['dim']
+                    if nd.get('kw'):
+                        v.append(x.unsqueeze(dim=d) if nd.get('form') == 'method' else torch.unsqueeze(x, dim=d))
+                    else:
+                        v.append(x.unsqueeze(d) if nd.get('form') == 'method' else torch.unsqueeze(x, d))
                 else:
                     v.append(self.layers['n%d' % i](v[nd['src']]))
             outs = spec.get('out')
@@ -389,6 +400,7 @@ def gen(rng, dim=None, depth=None, **opts):
                 s = spec['nodes'][i]['src']
                 live.update([s] if isinstance(s, int) else s)
         if len(live) == len(spec['nodes']):
+            respell(spec, rng, opts.get('p_negative_axis', 0.4))
             return spec
 
 
@@ -458,6 +470,39 @@ def _gen(rng, dim=None, depth=None, **opts):
     return spec
 
 
+def respell(spec, rng, p_neg):
+    """axis spellings: every axis-taking op (cat, flatten, squeeze, unsqueeze) gets its axis written either
+    from the front or from the end (negative index), as keyword or positional argument.  The fields 'dim' of cat
+    and 'start' of flatten stay NORMALISED (the IR node depends on the normalised axis only); the spelled value
+    is in 'sdim' / 'sstart'; squeeze / unsqueeze keep the spelled value in 'dim'."""
+    sh = shapes(spec)
+    neg = False
+    for i, nd in enumerate(spec['nodes']):
+        k = nd['k']
+        if k not in ('cat', 'flatten', 'squeeze', 'unsqueeze'):
+            continue
+        src = nd['src'] if isinstance(nd['src'], int) else nd['src'][0]
+        rank = len(sh[src]) + 1                      # with the batch axis
+        nd['kw'] = rng.random() < 0.5
+        flip = rng.random() < p_neg
+        if k == 'cat':
+            nd['sdim'] = nd['dim'] - rank if flip else nd['dim']
+            if not flip:
+                nd['kw'] = True if rng.random() < 0.5 else nd['kw']
+        elif k == 'flatten':
+            st = nd.get('start', 1)
+            nd['sstart'] = st - rank if flip else st
+        elif k == 'squeeze':
+            a = nd['dim'] if nd['dim'] >= 0 else rank + nd['dim']
+            nd['dim'] = a - rank if flip else a
+        else:
+            a = nd['dim'] if nd['dim'] >= 0 else rank + 1 + nd['dim']
+            nd['dim'] = a - (rank + 1) if flip else a
+        neg = neg or flip
+    if neg:
+        spec.setdefault('productions', []).append('negative-axis')
+
+
 def user_pit(spec, rng):
     """autoconvert_layers=False: the user places PIT layers himself.  A careful user: every non-excluded
     conv / linear becomes a PIT layer with the masker sharing a correct conversion needs (reference
@@ -476,7 +521,10 @@ def user_pit(spec, rng):
 
 
 def describe(spec):
-    s = ' '.join('%d:%s%s' % (i, nd['k'] + ('*' if excluded(spec, i) else '') + ('!' if nd.get('pit') is not None else ''), ('<-' + str(nd['src'])) if 'src' in nd else '') for i, nd in enumerate(spec['nodes']))
+    def ax(nd):
+        d = nd.get('sdim', nd.get('dim')) if nd['k'] == 'cat' else nd.get('sstart') if nd['k'] == 'flatten' else nd.get('dim') if nd['k'] in ('squeeze', 'unsqueeze') else None
+        return '' if d is None or (nd['k'] == 'cat' and d == 1) or (nd['k'] == 'flatten' and d == 1) else '[%s%d]' % ('dim=' if nd.get('kw') else '', d)
+    s = ' '.join('%d:%s%s' % (i, nd['k'] + ax(nd) + ('*' if excluded(spec, i) else '') + ('!' if nd.get('pit') is not None else ''), ('<-' + str(nd['src'])) if 'src' in nd else '') for i, nd in enumerate(spec['nodes']))
     if spec.get('exclude_types'):
         s += ' exclude_types=%s' % spec['exclude_types']
     if not spec.get('autoconvert', True):
